@@ -61,18 +61,19 @@ theorem mem_queue_of_clean (a : Arts) (h : CleanArts a) (x : Str) :
     x ∈ dedup ((artsKeys a).map Path.clean) ↔ x ∈ artsKeys a := by
   rw [mem_dedup, map_clean_of_clean a h]
 
-/-- what `verifyItem` does to the item's own link first: both artifact maps are cleaned -/
+/-- the cleaned COPY of the item's own link that `verifyItem` computes everything from: both artifact
+    maps cleaned (the link in the context is not written to) -/
 def cleanLink (l : LinkArts) : LinkArts :=
   { materials := cleanArts l.materials, products := cleanArts l.products }
 
 /-- `verifyItem` on an item that has a link, with the queues and difference sets named (ANY artifact
-    names: the item's own link is cleaned first) -/
+    names: they are computed from the cleaned copy of the item's own link; both rounds run on the
+    context as it came) -/
 theorem verifyItem_eq_gen (glob : Str → Str → Bool) (ctx : Ctx) (item : Item) (l : LinkArts)
     (hl : lookup item.name ctx = some (some l)) :
     verifyItem glob ctx item =
       match applyRules glob item.name .materials (createdOf (cleanLink l)) (deletedOf (cleanLink l))
-          (modifiedOf (cleanLink l)) item.expMaterials (matQueue (cleanLink l))
-          (ctxUpdate ctx item.name cleanLink) with
+          (modifiedOf (cleanLink l)) item.expMaterials (matQueue (cleanLink l)) ctx with
       | .ok (_, ctx1) =>
         match applyRules glob item.name .products (createdOf (cleanLink l)) (deletedOf (cleanLink l))
             (modifiedOf (cleanLink l)) item.expProducts (prodQueue (cleanLink l)) ctx1 with
@@ -102,25 +103,6 @@ theorem cleanLink_of_clean (l : LinkArts) (hm : CleanArts l.materials) (hp : Cle
   unfold cleanLink
   rw [cleanArts_of_clean _ hm, cleanArts_of_clean _ hp]
 
-theorem ctxUpdate_cleanLink_clean (ctx : Ctx) (h : CleanCtx ctx) (name : Str) :
-    ctxUpdate ctx name cleanLink = ctx := by
-  unfold ctxUpdate
-  induction ctx with
-  | nil => rfl
-  | cons e rest ih =>
-    have he : (if e.1 = name then (e.1, e.2.map cleanLink) else e) = e := by
-      split
-      · obtain ⟨k, v⟩ := e
-        cases v with
-        | none => rfl
-        | some l =>
-          have hc := h (k, some l) (List.mem_cons_self ..) l rfl
-          show (k, some (cleanLink l)) = (k, some l)
-          rw [cleanLink_of_clean l hc.1 hc.2]
-      · rfl
-    simp only [List.map]
-    rw [he, ih (fun e' he' => h e' (List.mem_cons_of_mem _ he'))]
-
 /-- `verifyItem` on an item that has a link with clean names, with the queues and difference sets named -/
 theorem verifyItem_eq (glob : Str → Str → Bool) (ctx : Ctx) (h : CleanCtx ctx) (item : Item) (l : LinkArts)
     (hl : lookup item.name ctx = some (some l)) :
@@ -136,8 +118,7 @@ theorem verifyItem_eq (glob : Str → Str → Bool) (ctx : Ctx) (h : CleanCtx ct
       | .err e => .err e
       | .panic e => .panic e := by
   have hc := h _ (mem_of_lookup _ _ _ hl) l rfl
-  rw [verifyItem_eq_gen glob ctx item l hl, ctxUpdate_cleanLink_clean ctx h,
-    cleanLink_of_clean l hc.1 hc.2]
+  rw [verifyItem_eq_gen glob ctx item l hl, cleanLink_of_clean l hc.1 hc.2]
 
 /-- `applyRules_spec` as a case distinction: either the rules parse and the specification's `run`
     accepts, and then the loop returns the remaining queue and the SAME context; or not, and then
